@@ -192,6 +192,99 @@ async fn extract_inner(case: &Value, torrent: &[u8], run: &std::path::Path) -> V
            "acc": match acc { Ok(v) => v, Err(p) => json!({"panic": p}) }})
 }
 
+/// C17: create a .torrent for a file and parse it back.
+fn create_case(case: &Value) -> Value {
+    let scratch = std::path::PathBuf::from(case["scratch"].as_str().unwrap());
+    let _ = std::fs::remove_dir_all(&scratch);
+    std::fs::create_dir_all(&scratch).unwrap();
+    std::env::set_current_dir(&scratch).unwrap();
+    let name = case["name"].as_str().unwrap();
+    let data = content(case["content_len"].as_u64().unwrap() as usize, case["pat"].as_u64().unwrap_or(0));
+    std::fs::write(scratch.join(name), &data).unwrap();
+    let tracker = case["tracker"].as_str().unwrap().to_string();
+    let path = scratch.join(name);
+    let res = guarded(|| rdest::Metainfo::create_file(&path, &tracker));
+    let out = match res {
+        Ok(Ok(())) => match std::fs::read(scratch.join(format!("{}.torrent", name))) {
+            Ok(t) => json!({"create": "ok", "parsed": metainfo_case(&json!({"input": hex(&t)})), "torrent": hex(&t[..t.len().min(200)])}),
+            Err(e) => json!({"create": format!("no torrent file: {}", e)}),
+        },
+        Ok(Err(e)) => json!({"create": format!("err:{:?}", e)}),
+        Err(p) => json!({"panic": p}),
+    };
+    std::env::set_current_dir("/").unwrap();
+    let _ = std::fs::remove_dir_all(&scratch);
+    out
+}
+
+/// C18: run the real TrackerClient (real reqwest) against a loopback HTTP listener and capture the
+/// request it sends. Runs on its own runtime with a real clock.
+fn announce_case(case: &Value) -> Value {
+    let rt = tokio::runtime::Builder::new_current_thread().enable_all().build().unwrap();
+    rt.block_on(async {
+        use tokio::io::{AsyncReadExt, AsyncWriteExt};
+        let mut listener = None;
+        for _ in 0..50 {
+            let l = tokio::net::TcpListener::bind("127.0.0.1:0").await.unwrap();
+            if l.local_addr().unwrap().port() >= 10000 {
+                listener = Some(l);
+                break;
+            }
+        }
+        let listener = match listener {
+            Some(l) => l,
+            None => return json!({"error": "no 5-digit port"}),
+        };
+        let port = listener.local_addr().unwrap().port();
+        let torrent_hex = case["torrent"].as_str().unwrap().replace(&hex(b"PORTX"), &hex(port.to_string().as_bytes()));
+        let mut m = match rdest::Metainfo::from_bencode(&unhex(&torrent_hex)) {
+            Ok(m) => m,
+            Err(e) => return json!({"error": format!("torrent: {:?}", e)}),
+        };
+        let mut h = [0u8; 20];
+        h.copy_from_slice(&unhex(case["hash"].as_str().unwrap()));
+        m.verif_set_info_hash(h);
+        let mut id = [0u8; 20];
+        id.copy_from_slice(case["peer_id"].as_str().unwrap().as_bytes());
+        let server = tokio::spawn(async move {
+            let (mut sock, _) = listener.accept().await.unwrap();
+            let mut buf = vec![];
+            let mut tmp = [0u8; 4096];
+            loop {
+                let n = sock.read(&mut tmp).await.unwrap_or(0);
+                if n == 0 {
+                    break;
+                }
+                buf.extend_from_slice(&tmp[..n]);
+                if buf.windows(4).any(|w| w == b"\r\n\r\n") {
+                    break;
+                }
+            }
+            let body = b"d8:intervali1800e5:peerslee";
+            let resp = format!("HTTP/1.1 200 OK\r\nContent-Length: {}\r\nConnection: close\r\n\r\n", body.len());
+            let _ = sock.write_all(resp.as_bytes()).await;
+            let _ = sock.write_all(body).await;
+            let _ = sock.shutdown().await;
+            buf
+        });
+        let (tx, mut rx) = tokio::sync::mpsc::channel(8);
+        let created_url = rdest::TrackerClient::verif_create_url(&m);
+        let mut client = rdest::TrackerClient::new(&id, m, tx);
+        let job = tokio::spawn(async move { client.run().await });
+        let req = match tokio::time::timeout(std::time::Duration::from_secs(10), server).await {
+            Ok(Ok(b)) => b,
+            _ => return json!({"error": "no request within 10 s", "created_url": created_url}),
+        };
+        let cmd = match tokio::time::timeout(std::time::Duration::from_secs(10), rx.recv()).await {
+            Ok(Some(rdest::verif::TrackerCmd::TrackerResp(_))) => "resp".to_string(),
+            Ok(Some(rdest::verif::TrackerCmd::Fail(e))) => format!("fail:{}", e),
+            _ => "none".to_string(),
+        };
+        job.abort();
+        json!({"request": hex(&req), "port": port, "cmd": cmd, "created_url": created_url})
+    })
+}
+
 async fn run_case_async(case: &Value) -> Value {
     match case["op"].as_str().unwrap_or("") {
         "extract" => extract_case(case).await,
@@ -281,9 +374,76 @@ fn bits_case(case: &Value) -> Value {
     json!({"data": hex(&data), "back": match back { Ok(v) => json!(v), Err(e) => json!(format!("{:?}", e)) }, "wire_back": wire_back})
 }
 
+/// C05/C17: parse a document as metainfo, report every field and call every accessor.
+fn metainfo_case(case: &Value) -> Value {
+    let input = unhex(case["input"].as_str().unwrap());
+    let m = match guarded(|| rdest::Metainfo::from_bencode(&input)) {
+        Ok(Ok(m)) => m,
+        Ok(Err(e)) => return json!({"ok": false, "err": format!("{:?}", e)}),
+        Err(p) => return json!({"panic": p}),
+    };
+    let (announce, name, pl, files) = m.verif_fields();
+    let mut out = json!({"ok": true, "announce": hex(announce.as_bytes()), "name": hex(name.as_bytes()), "pl": pl.to_string(),
+        "files": files.iter().map(|f| json!([f.length.to_string(), hex(f.path.as_bytes())])).collect::<Vec<_>>(),
+        "info_hash": hex(m.info_hash()), "tracker_url": hex(m.tracker_url().as_bytes())});
+    let n = match guarded(|| m.pieces_num()) {
+        Ok(n) => n,
+        Err(p) => {
+            out["acc_panic"] = json!(format!("pieces_num: {}", p));
+            return out;
+        }
+    };
+    out["pieces"] = json!((0..n).map(|i| hex(m.piece(i))).collect::<Vec<_>>());
+    let mut panics = vec![];
+    match guarded(|| m.total_length()) {
+        Ok(t) => out["total_length"] = json!(t.to_string()),
+        Err(p) => panics.push(format!("total_length: {}", p)),
+    }
+    let limit = n.min(64);
+    match guarded(|| (0..limit).map(|i| m.piece_length(i)).collect::<Vec<usize>>()) {
+        Ok(v) => out["piece_lengths"] = json!(v),
+        Err(p) => panics.push(format!("piece_length: {}", p)),
+    }
+    match guarded(|| {
+        m.file_piece_ranges()
+            .iter()
+            .map(|(p, a, b)| json!([p.to_string_lossy(), a.file_index, a.byte_index, b.file_index, b.byte_index]))
+            .collect::<Vec<Value>>()
+    }) {
+        Ok(v) => out["ranges"] = json!(v),
+        Err(p) => panics.push(format!("file_piece_ranges: {}", p)),
+    }
+    if !panics.is_empty() {
+        out["acc_panic"] = json!(panics.join("; "));
+    }
+    out
+}
+
+/// C19: parse a tracker reply.
+fn tracker_case(case: &Value) -> Value {
+    let input = unhex(case["input"].as_str().unwrap());
+    match guarded(|| rdest::TrackerResp::from_bencode(&input)) {
+        Ok(Ok(r)) => {
+            let (interval, peers) = r.verif_fields();
+            let listed = match guarded(|| r.peers()) {
+                Ok(v) => json!(v.iter().map(|(a, id)| json!([a, hex(id)])).collect::<Vec<_>>()),
+                Err(p) => json!({"panic": p}),
+            };
+            json!({"ok": true, "interval": interval.to_string(),
+                   "peers": peers.iter().map(|(ip, id, port)| json!([hex(ip.as_bytes()), hex(id), port.to_string()])).collect::<Vec<_>>(),
+                   "listed": listed})
+        }
+        Ok(Err(e)) => json!({"ok": false, "err": format!("{:?}", e), "failure": matches!(e, rdest::Error::TrackerRespFail(_))}),
+        Err(p) => json!({"panic": p}),
+    }
+}
+
 fn run_case(case: &Value) -> Value {
     let op = case["op"].as_str().unwrap_or("");
     match op {
+        "metainfo" => metainfo_case(case),
+        "create" => create_case(case),
+        "tracker_resp" => tracker_case(case),
         "wire" => wire_case(case),
         "bits" => bits_case(case),
         "bdecode" => {
@@ -341,7 +501,10 @@ fn main() {
             continue;
         }
         let case: Value = serde_json::from_str(&line).unwrap();
-        let obs = match guarded(|| rt.block_on(run_case_async(&case))) {
+        let obs = match guarded(|| match case["op"].as_str() {
+            Some("announce") => announce_case(&case),
+            _ => rt.block_on(run_case_async(&case)),
+        }) {
             Ok(v) => v,
             Err(p) => json!({"panic": p}),
         };
